@@ -97,6 +97,11 @@ Universe_C02 ==
   {D(n, bp, "inside", sc, "inplace", NoFault, lin, nl, "Bounds", opt, NoCb) :
      n \in {2, 3}, bp \in UNION {FixSets(m) : m \in {2, 3}}, sc \in BOOLEAN, lin \in {"none", "mixed"},
      nl \in {"nlc_ub", "nlc_two", "dict_ineq", "vector"}, opt \in {"default", "fev_3npt"}}
+  \cup  \* inconsistent bounds: the returned point violates them; maxcv is the largest violated amount
+  {D(n, bp, x0, sc, obj, NoFault, lin, nl, bf, "default", NoCb) :
+     n \in {1, 2}, bp \in UNION {{[i \in 1..m |-> IF i = 1 THEN "bad" ELSE "wide"]} : m \in {1, 2}},
+     x0 \in {"inside", "below", "above"}, sc \in BOOLEAN, obj \in {"quad", "none"}, lin \in {"none", "ub"},
+     nl \in {"none", "nlc_ub"}, bf \in {"Bounds", "array"}}
   \cup  \* every variable fixed: the single evaluation made while assembling the result
   {D(n, Const(n, "fixed"), "inside", sc, obj, NoFault, lin, nl, bf, "default", NoCb) :
      n \in {1, 2, 3}, sc \in BOOLEAN, obj \in {"quad", "none"}, lin \in {"none", "ub", "two", "eq"},
@@ -148,6 +153,13 @@ Universe_C07 ==
   {D(2, <<"bad", "wide">>, "inside", FALSE, obj, NoFault, lin, nl, "Bounds", opt, cb) :
      obj \in {"quad", "none"}, lin \in {"none", "ub"}, nl \in {"none", "nlc_ub"},
      opt \in {"default", "fev1", "target"}, cb \in {NoCb, <<"stop", 1>>, <<"kw", 0>>}}
+  \cup  \* linear constraints, fixed variables and scaling; runs that end during the sampling at a
+       \* point whose linear feasibility differs from that of the start
+  {D(n, bp, x0, sc, obj, NoFault, lin, nl, "Bounds", opt, NoCb) :
+     n \in {2, 3}, bp \in UNION {FixSets(m) : m \in {2, 3}} \cup {<<"free", "free">>, <<"free", "free", "free">>},
+     x0 \in {"zero", "inside", "onlower"}, sc \in BOOLEAN, obj \in {"quad", "none"},
+     lin \in {"ub", "two", "eq", "mixed"}, nl \in {"none", "nlc_ub"},
+     opt \in {"default", "target", "target2", "target3", "tol0_target", "tol0"}}
   \cup  \* the target is reached by a feasible point after infeasible points with lower objective
   {D(n, Const(n, "wide"), x0, sc, "quad", NoFault, lin, nl, "Bounds", opt, NoCb) :
      n \in {1, 2}, x0 \in {"onupper", "above", "mixed"}, sc \in BOOLEAN, lin \in {"ub", "two"},
